@@ -22,6 +22,9 @@ from . import c11
 
 VALID = [
     "x = 1\n",
+    # finding F50: a sys.path injection statement written on several lines is a valid program under --cleanup full too
+    '__import__("sys").path[0:0] = [\n    "a",\n    "b",\n]\n# comment\nx = 1\n', '__import__("sys").path[0:0] = ["a",\n "b"]\n# comment\nx = 1\n',
+    '__import__("sys").path[0:0] = [\n        "a",\n    "b"]\n# comment\nx = 1\n',
     "import os\nprint(os.getcwd())\n",
     "def f(n):\n    if n < 2:\n        return n\n    return f(n - 1) + f(n - 2)\n",
     "for i in range(3):\n    print(i)\n",
